@@ -18,4 +18,29 @@ CLAIMS = {
     },
 }
 
+CLAIMS["C05"] = {
+    "text": "Theorems over the L-atomic model of flow control (sender load/CAS/park/wake, updateWindow add/signal, carrier, accept, dequeue, "
+            "credit callback; arbitrary window W>0, chunkMax>0, workload and schedule of any length): conservation of credit, no lost wake-up "
+            "(sender and reader), 'blocked only behind a full unread window', 'whole window restored when everything is read', no stuck state "
+            "(C05_no_stuck), every execution finite (explicit linear measure, C05_terminates) and complete delivery (C05_completes). The model "
+            "is tied to the real defaultSender/defaultReceiver by stepping them at verif yield points under a harness-controlled scheduler "
+            "and comparing the hook-visible state after every atomic action (random schedules each run; all schedules of tiny configurations "
+            "to a depth bound).",
+    "design_ref": "DESIGN.md 6 (C05), Appendix B.1",
+    "note": "Trusted: Lean kernel; sequential consistency of Go atomics/channels/cond at action granularity; FIFO carrier; the hook scheduler. "
+            "Multi-stream and bounded-carrier lifting (C03_progress) is stated in DESIGN.md and not yet mechanised: this check covers one stream and direction.",
+    "technique": "Lean 4 invariant + termination-measure proofs over all interleavings of an atomic-step model; hook-stepped correspondence with the real sender/receiver",
+}
+CLAIMS["C06"] = {
+    "text": "Theorems: in every reachable state of the L-atomic model sent <= W + credit delivered (C06_sender), every data frame <= chunkMax "
+            "= 16384 (C06_chunk_code, constant regenerated from the source), credit granted <= bytes dequeued (C06_credit), a conforming sender "
+            "never trips the receiver (C06_no_overrun); for the receiver alone against ANY operation sequence queued bytes <= W "
+            "(C06_receiver_bounded) and an oversize frame is refused without being queued (C06_overrun_refused). Tied to the code by the "
+            "hook-stepped flow world and by direct comparison of both senders' chunking with Framing.pump / Framing.sendAll.",
+    "design_ref": "DESIGN.md 6 (C06)",
+    "note": "Trusted: as C05. The stream-level consequence of an overrun (that RPC fails with ResourceExhausted, others continue) belongs to the "
+            "L-frame endpoint model (C09/C03 checks).",
+    "technique": "Lean 4 invariant proofs (all schedules; all hostile operation sequences) + differential correspondence",
+}
+
 NOT_CLAIMED = {}
